@@ -368,11 +368,20 @@ def one_per_component(ctx, f: Func, e: ast.AST, depth: int = 0):
                     return "no", "components are appended only under %s" % " and ".join(unparse(x)[:40] for x, _ in g)
             return "yes", "appended once per component"
         return "unknown", "%s has %d bindings" % (e.id, len(a))
-    if isinstance(e, ast.ListComp):
+    if isinstance(e, (ast.ListComp, ast.GeneratorExp)):
         if len(e.generators) == 1 and _split_iter(f, e.generators[0].iter):
             if e.generators[0].ifs:
                 return "no", "the comprehension filters components (%s)" % unparse(e.generators[0].ifs[0])[:40]
             return "yes", "comprehension over the components"
+        # a comprehension over a sequence that itself has one entry per component (a generator of parsed molecules)
+        it = e.generators[0].iter
+        if len(e.generators) == 1 and isinstance(it, ast.Name) and depth < 4:
+            a = assignments_to(f, it.id)
+            if len(a) == 1 and a[0][2] is None and isinstance(a[0][1], (ast.ListComp, ast.GeneratorExp)):
+                v, why = one_per_component(ctx, f, a[0][1], depth + 1)
+                if v == "yes" and e.generators[0].ifs:
+                    return "no", "the comprehension filters components (%s)" % unparse(e.generators[0].ifs[0])[:40]
+                return v, why
         return "unknown", "comprehension over %s" % unparse(e.generators[0].iter)[:40]
     if isinstance(e, ast.Call):
         fn = unparse(e.func).split(".")[-1]
@@ -402,11 +411,12 @@ def one_per_component(ctx, f: Func, e: ast.AST, depth: int = 0):
 
 
 def rule_a5(ctx) -> None:
-    ctx.rule("C10-A5", "the molecule list handed to the pair search has one entry per component of the searched side", 2)
+    ctx.rule("C10-A5", "the molecule list handed to the pair search has one entry per component of the searched side", 1)
     prog = ctx.prog
     fit = prog.func("synrbl.SynMCSImputer.SubStructure.mcs_graph_detector.MCSMissingGraphAnalyzer.fit")
     pairs = [c for c in calls(fit) if unparse(c.func).split(".")[-1] == "IterativeMCSReactionPairs" and c.args]
-    ctx.require(len(pairs) >= 2, "fit no longer calls IterativeMCSReactionPairs for both directions")
+    # one call per direction on the pinned tree; a merged call site (sides chosen first) is the same obligation once
+    ctx.require(len(pairs) >= 1, "fit no longer calls IterativeMCSReactionPairs")
     for c in pairs:
         v, why = one_per_component(ctx, fit, c.args[0])
         ctx.instance("C10-A5", "fit: %s - %s" % (unparse(c.args[0]), why), fit.loc(c), ok=v == "yes")
